@@ -830,13 +830,15 @@ class ExcludeRegionState(object):  # pylint: disable=too-many-instance-attribute
         )
 
         newZ = self.position.Z_AXIS.nativeToLogical()
-        oldZ = self.lastPosition.Z_AXIS.nativeToLogical()
+        # Compare heights in native units (the logical units may have changed while excluding)
+        nativeNewZ = self.position.Z_AXIS.current
+        nativeOldZ = self.lastPosition.Z_AXIS.current
         moveZcmd = "G0 F{f} Z{z}".format(
             f=self.feedRate / self.feedRateUnitMultiplier,
             z=newZ
         )
 
-        if (newZ > oldZ):
+        if (nativeNewZ > nativeOldZ):
             # Move Z axis _up_ to new position
             # (hopefully help avoid hitting any part we may pass over)
             returnCommands.append(moveZcmd)
@@ -851,7 +853,7 @@ class ExcludeRegionState(object):  # pylint: disable=too-many-instance-attribute
             )
         )
 
-        if (newZ < oldZ):
+        if (nativeNewZ < nativeOldZ):
             # Move Z axis _down_ to new position
             # (hopefully we avoided hitting any part we may pass over)
             returnCommands.append(moveZcmd)
